@@ -41,8 +41,8 @@ func histReplay(wit json.RawMessage, prop string) []core.Violation {
 func c01Scenarios(thorough bool) []histParams {
 	ev := []string{"ans", "ans:1", "ext:1", "ext:2", "ext:12", "reorg:1:2", "reorg:2:3", "back:1", "ping", "tick:250", "settle", "dup", "duph:1", "restart", "drop"}
 	return []histParams{
-		{Prop: "C01", Cfg: WorldCfg{InitialChain: 4, StartHeight: 2, SafeDelayMS: 2000, RemoveMissing: true}, Boot: "synced", Events: ev, Drain: true},
-		{Prop: "C01", Cfg: WorldCfg{InitialChain: 16, StartHeight: 2, SafeDelayMS: 2000, RemoveMissing: true}, Boot: "cold", Events: ev, Drain: true},
+		{Prop: "C01", Cfg: WorldCfg{InitialChain: 4, StartHeight: 2, SafeDelayMS: 2000, RemoveMissing: true}, Boot: "synced", Events: ev, Drain: true, StaleDup: true},
+		{Prop: "C01", Cfg: WorldCfg{InitialChain: 16, StartHeight: 2, SafeDelayMS: 2000, RemoveMissing: true}, Boot: "cold", Events: ev, Drain: true, StaleDup: true},
 		// catch-up in header batches (the peer's limit scaled from 2000 to 4), out-of-order answers, connection drops
 		{Prop: "C01", Cfg: WorldCfg{InitialChain: 6, StartHeight: 2, SafeDelayMS: 2000, RemoveMissing: true, HeaderBatch: 4}, Boot: "cold",
 			Events: []string{"ansh", "ansb", "ans:1", "drop", "ext:5", "tick:250", "settle"}, Drain: true, ExtraDepth: 2},
